@@ -16,8 +16,9 @@ EXPLANATION = (
     "Tracks.enable_features / disable_features: KeyError => tables and FeatureDict unchanged and nothing computed, otherwise the FeatureDict is the previous one plus / minus "
     "exactly the given keys (existing entries kept, new ones carry the owning annotator's Feature) and the bulk computation is requested exactly once with the given keys iff "
     "recompute. So 'registered = initially registered + enabled - disabled' holds by induction over any sequence of switches. "
-    "The bulk computation of the region features that enable_features requests is proved to write exactly the requested active keys with the reference measurement (contracts/bulkrp.py). "
-    "BOUNDED STAND-INS (not proofs): the values after enabling edge and track features with recomputation (bulk compute() of EdgeAnnotator / TrackAnnotator through the registry) and whole interleavings of enable/disable/edits/undo/redo "
+    "The bulk computations that enable_features requests are proved: region features (contracts/bulkrp.py), edge IoU (contracts/bulkiou.py), track and lineage ids (contracts/bulkids.py) - each writes "
+    "exactly the reference values for the current state. "
+    "BOUNDED STAND-INS (not proofs): TrackAnnotator.compute's dispatch and AnnotatorRegistry.compute's loop over the annotators;  and whole interleavings of enable/disable/edits/undo/redo "
     "against the reference; the walk with the lineage feature switched off.")
 ASSUMPTIONS = ["the track id of a SolutionTracks is never disabled (with it off the TrackAnnotator ignores every edit; outside the domain of C04-C06)",
                "an element deleted and re-created by an edit is a new element: its disabled attributes are not expected to be carried over"]
@@ -25,8 +26,8 @@ NOT_UNDER_CONTRACT = ["bulk compute() of the three annotators (AnnotatorRegistry
 
 
 def units(tier):
-    from contracts import bulkrp, registry, walk
-    return registry.units() + bulkrp.units() + walk.units() + (primitives.units(names=["UpdateNodeAttrsC"]) + primitives.units(SEGP, names=["UpdateNodeAttrsC"]) + segprims.annotator_units())
+    from contracts import bulkids, bulkiou, bulkrp, registry, walk
+    return registry.units() + bulkrp.units() + bulkiou.units() + bulkids.units() + walk.units() + (primitives.units(names=["UpdateNodeAttrsC"]) + primitives.units(SEGP, names=["UpdateNodeAttrsC"]) + segprims.annotator_units())
 
 
 def bounded(tier, seed):
